@@ -93,7 +93,13 @@ type tunnelWorld struct {
 }
 
 func (tw *tunnelWorld) violate(oracle, sig, f string, a ...any) {
-	tw.w.Violate("C01", oracle, sig, f, a...)
+	prop := "C01"
+	if tw.w.In.Property == "C08" {
+		// the C08 batch runs this world with secret proxies only: every stream is one that frpc's own visitor code was
+		// admitted with, and its transparency is what C08 states
+		prop = "C08"
+	}
+	tw.w.Violate(prop, oracle, sig, f, a...)
 }
 
 func worldTunnel(w *World) {
@@ -164,6 +170,9 @@ func worldTunnel(w *World) {
 	for i := 0; i < nprox; i++ {
 		p := &tProxy{idx: i}
 		p.typ = w.KnobPick(fmt.Sprintf("p%d.type", i), ptTCP, ptTCP, ptSTCP, ptHTTPS, ptTCPMux, ptXTCP)
+		if w.In.Property == "C08" {
+			p.typ = w.KnobPick(fmt.Sprintf("p%d.secret_type", i), ptSTCP, ptSTCP, ptXTCP)
+		}
 		p.name = fmt.Sprintf("px%d-%s", i, ptNames[p.typ])
 		p.enc = w.KnobBool(fmt.Sprintf("p%d.enc", i), 50)
 		p.comp = w.KnobBool(fmt.Sprintf("p%d.comp", i), 50)
